@@ -216,7 +216,16 @@ impl<CS: BbsCiphersuite> Signature<BBSplus<CS>> {
         update_index: usize,
         n: usize,
     ) -> Result<Self, Error> {
-        let generators = Generators::create::<CS>(n + 1, Some(CS::API_ID));
+        // n and update_index are chosen by the caller: no unchecked arithmetic on them
+        let count = n
+            .checked_add(1)
+            .ok_or_else(|| Error::UpdateSignatureError("n is too large".to_owned()))?;
+        if update_index >= n {
+            return Err(Error::UpdateSignatureError(
+                "update_index >= n".to_owned(),
+            ));
+        }
+        let generators = Generators::create::<CS>(count, Some(CS::API_ID));
 
         if generators.values.len() <= update_index + 1 {
             return Err(Error::UpdateSignatureError(
